@@ -58,7 +58,8 @@ pub fn run(
                 )))?;
 
         // step through each index along the most recently-accepted path
-        for spur_idx in 0..prev_accepted_path.len() - 2 {
+        // (a path of fewer than two edges has no spur index)
+        for spur_idx in 0..prev_accepted_path.len().saturating_sub(2) {
             let spur_len: usize = spur_idx + 1;
             let mut cut_edges: HashSet<EdgeId> = HashSet::new();
             let root_path = prev_accepted_path.iter().take(spur_len).collect_vec();
